@@ -81,17 +81,34 @@ def build(rng, le, fmt, asz, version):
 
     # --- type units: root(type_unit, children) -> k padding entries, the type entry, null
     sigs = [rng.randrange(1, 1 << 64) for _ in range(2)] if version >= 4 else []
-    tus = []                         # (bytes, offset of the type entry from unit start, unit_type)
-    for s in sigs:
-        npad = rng.randrange(0, 3)
-        dies = _uleb(ab.code('type_unit', True, []))
-        for _ in range(npad):
-            dies += _uleb(ab.code('base_type', False, [(AT_byte_size, 'data1')])) + bytes([rng.randrange(256)])
-        toff = hdr_len(True) + len(dies)
-        dies += _uleb(ab.code('structure_type', False, [(AT_byte_size, 'data1')])) + bytes([rng.randrange(256)]) + b'\x00'
-        ut = rng.choice(['DW_UT_type', 'DW_UT_split_type']) if version >= 5 else None
-        rest = _header(le, fmt, asz, version, ut, 0, sig=s, type_off=toff) + dies
-        tus.append((wrap(rest), toff, ut))
+
+    def make_tus(info_targets):
+        out = []
+        for s in sigs:
+            npad = rng.randrange(0, 3)
+            dies = _uleb(ab.code('type_unit', True, []))
+            for _ in range(npad):
+                dies += _uleb(ab.code('base_type', False, [(AT_byte_size, 'data1')])) + bytes([rng.randrange(256)])
+            toff = hdr_len(True) + len(dies)
+            dies += _uleb(ab.code('structure_type', False, [(AT_byte_size, 'data1')])) + bytes([rng.randrange(256)])
+            inner = []
+            if version == 4:
+                # references FROM a version 4 type unit: a unit-relative one designates an entry of the type unit itself
+                # (.debug_types); a DW_FORM_ref_addr value is always a .debug_info offset, also when the number happens to
+                # lie inside the type unit's own extent (both sections start at 0)
+                r = hdr_len(True) + len(dies)
+                dies += _uleb(ab.code('variable', False, [(AT_type, 'ref4')])) + toff.to_bytes(4, bo)
+                inner.append((r, 'DW_FORM_ref4', 'TypeUnit', toff, None, 'DW_TAG_structure_type'))
+                for (target, unit, tag) in info_targets:
+                    r = hdr_len(True) + len(dies)
+                    dies += _uleb(ab.code('typedef', False, [(AT_type, 'ref_addr')])) + target.to_bytes(osz, bo)
+                    inner.append((r, 'DW_FORM_ref_addr', 'CompileUnit', target, unit, tag))
+            dies += b'\x00'
+            ut = rng.choice(['DW_UT_type', 'DW_UT_split_type']) if version >= 5 else None
+            rest = _header(le, fmt, asz, version, ut, 0, sig=s, type_off=toff) + dies
+            out.append((wrap(rest), toff, ut, s, inner))
+        return out
+    tus = make_tus([]) if version != 4 else [(b'', 0, None, s, []) for s in sigs]     # version 4: built below, after .debug_info
     # --- two ordinary units; the first refers into itself, into the second and to the type units
     relform = rng.choice(['ref1', 'ref2', 'ref4', 'ref8', 'ref_udata'])
     relw = dict(ref1=1, ref2=2, ref4=4, ref8=8)
@@ -158,10 +175,40 @@ def build(rng, le, fmt, asz, version):
             final.append((r, form, 'types' if version < 5 else 'info', tu_offsets[i] + tus[i][1], tu_offsets[i], tag))
         else:
             final.append((r, form, 'info', target, unit, tag))
+    tu_refs = []
+    if version == 4:
+        # the type units of .debug_types, with section-relative references to every designated entry of .debug_info
+        tus = make_tus(sorted({(t, u, g) for (_r, _f, w, t, u, g) in exp if w == 'info'}))
+        tu_offsets, pos = [], 0
+        for t in tus:
+            tu_offsets.append(pos)
+            pos += len(t[0])
+        final = [(r, form, 'types', tu_offsets[w[1]] + tus[w[1]][1], tu_offsets[w[1]], tag) if w != 'info' else (r, form, 'info', t_, u_, tag)
+                 for (r, form, w, t_, u_, tag) in exp]
+        for t, o in zip(tus, tu_offsets):
+            for (r, form, cls_, target, unit, tag) in t[4]:
+                # unit-relative values are relative to the type unit; section-relative ones are .debug_info offsets
+                tu_refs.append((t[3], o + r, form, cls_, (o + target) if cls_ == 'TypeUnit' else target,
+                                o if cls_ == 'TypeUnit' else unit, tag))
     secs = dict(debug_info=info, debug_abbrev=ab.section())
     if version == 4:
         secs['debug_types'] = b''.join(t[0] for t in tus)
-    return secs, a_off, final
+    return secs, a_off, final, tu_refs
+
+
+def resolve_from_tus(dw, tu_refs):
+    for (sig, r, form, cls_, target, unit, tag) in tu_refs:
+        tu = dw.get_TU_by_sig8(sig)
+        die = tu.get_DIE_from_refaddr(r)
+        try:
+            t = die.get_DIE_from_attribute('DW_AT_type')
+        except Exception as e:
+            return 'type unit entry at %d: %s reference to the entry at %d (%s) raised %r' % (r, form, target, cls_, e)
+        got = (type(t.cu).__name__, t.offset, t.cu.cu_offset, t.tag)
+        if got != (cls_, target, unit, tag):
+            return 'type unit entry at %d: %s reference resolves to (unit class, offset, unit offset, tag) %r; it designates %r' % (
+                r, form, got, (cls_, target, unit, tag))
+    return None
 
 
 def resolve_all(dw, a_off, exp):
@@ -192,14 +239,17 @@ def refs(tier, seed):
             for fmt in (32, 64):
                 for asz in (4, 8):
                     for _ in range(n_per):
-                        secs, a_off, exp = build(rng, le, fmt, asz, version)
+                        secs, a_off, exp, tu_refs = build(rng, le, fmt, asz, version)
                         for warm in (False, True):
                             dw = _dwarfinfo(secs, le, asz)
                             try:
                                 if warm:
                                     for cu in dw.iter_CUs():
                                         list(cu.iter_DIEs())
-                                r = resolve_all(dw, a_off, exp)
+                                    if dw.debug_types_sec is not None:
+                                        for tu in dw.iter_TUs():
+                                            list(tu.iter_DIEs())
+                                r = resolve_all(dw, a_off, exp) or resolve_from_tus(dw, tu_refs)
                             except Exception as e:
                                 r = 'real parser raised %r' % (e,)
                             if r and not bad:
